@@ -198,13 +198,30 @@ HOPS_UNITS = [
     Unit("hops.tq.add_new", H_DIR + "hops_addnew.c", defines=H_DEFS, enforce="add_new",
          lifts={"add_new_body": Lift(H_TQ, r"std::size_t add_new\(std::int64_t add_count, thread_queue\* addfrom,", rules=ADDNEW_RULES,
                                      loops={1: ADDNEW_LOOP, "count": 1})},
-         funcs=[H_TQ + ": thread_queue::add_new"], min_obligations=60,
+         funcs=[H_TQ + ": thread_queue::add_new"], min_obligations=1500,
          doc="I+T over two queue objects (receiver, source; possibly the same): every staged task popped from addfrom->new_tasks_ "
              "gets exactly one thread object, its description is destroyed and freed once, it is inserted into the RECEIVER's "
              "thread_map_ (thread_map_count_ +1 after the insertion, before the task is un-staged), addfrom's new_tasks_count_ is "
              "decremented exactly once AFTER the pop (the counter of the queue it was popped from; the receiver's is untouched "
              "unless it is the source) and the thread is queued once in the receiver; a refused map insertion is an exception, "
              "never a silent drop; at most add_count conversions; the victim moves staged -> pending+map exactly once"),
+]
+
+ANA_RULES = [H_NS] + H_LOCK_REF("lk") + [
+    MemberCall("thread_map_", "size", "map_size({recv})"),
+    MemberCall("work_items_", "empty", "wi_empty({recv})"),
+    Sub(r"\(std::numeric_limits<std::int64_t>::max\)\(\)", "INT64_MAX", None),
+    Sub(r"(?<![\w.>])added\b", "(*added)", None),                                                 # reference parameter
+    HCall0(r"(?<![\w.>])add_new", lambda a, env: "tq_add_new(self, %s, %s, %s, %s)" % (a[0], a[1], a[2], a[3] if len(a) > 3 else "false")),   # bool steal = false
+    Members(["parameters_"]), H_THIS,
+]
+HOPS_UNITS += [
+    Unit("hops.tq.add_new_always", H_DIR + "hops_addnew_always.c", defines=H_DEFS, enforce="add_new_always",
+         lifts={"ana_body": Lift(H_TQ, r"bool add_new_always\(std::size_t& added, thread_queue\* addfrom,", rules=ANA_RULES)},
+         funcs=[H_TQ + ": thread_queue::add_new_always"], min_obligations=300,
+         doc="T over the contract of add_new: add_new is called at most once, with the caller's source queue and lock and "
+             "an add_count that meets its precondition (-1 or >= 0); `added` grows by exactly what add_new converted; the result is "
+             "'something was converted'; no call: nothing changes, result false"),
 ]
 
 # ---------------------------------------------------------------------------------------------------------------
@@ -229,7 +246,7 @@ HOPS_UNITS += [
     Unit("hops.tq.create_thread", H_DIR + "hops_create.c", defines=H_DEFS, enforce="create_thread",
          lifts={"create_thread_body": Lift(H_TQ, r"void create_thread\(threads::detail::thread_init_data& data,\s*threads::detail::thread_id_ref_type\* id, error_code& ec\)",
                                            rules=CREATE_RULES)},
-         funcs=[H_TQ + ": thread_queue::create_thread"], min_obligations=60,
+         funcs=[H_TQ + ": thread_queue::create_thread"], min_obligations=900,
          doc="I+T: a new task takes exactly one of two roads: run_now -- one thread object made from the request with the requested "
              "initial state, inserted once into thread_map_, thread_map_count_ +1 after the insertion, queued exactly once iff the "
              "requested state is pending (else handed to the caller) -- or staged -- new_tasks_count_ +1 BEFORE one description is "
@@ -237,8 +254,320 @@ HOPS_UNITS += [
              "nothing queued / staged; staged with a non-pending state: bad_parameter, nothing touched); lock released on every path"),
 ]
 
+# ---------------------------------------------------------------------------------------------------------------
+# thread_queue::destroy_thread / cleanup_terminated_locked / cleanup_terminated
+
+H_BARE_COUNTER = Sub(r"(?<![\w.>+\-])(terminated_items_count_|thread_map_count_)\b(?!\s*(?:\.|\())", r"atomic_load_\1(self)", None)   # implicit atomic load
+H_TERM = [
+    Sub(r"&\s*(\w+)->get_queue<thread_queue>\(\)", r"td_get_queue(\1)", None),
+    MemberCall("terminated_items_", "push", "term_push({recv}, {0})"),
+    MemberCall("terminated_items_", "pop", "term_pop_h({recv}, &{0})"),
+    Sub(r"\bthread_data\s*\*\s*(\w+)\s*;", r"td_handle \1 = 0;", None),                       # thread_data* local -> handle (hops.h)
+    Sub(r"\bthread_id_type\s+(\w+)\(\s*(\w+)\s*\)\s*;", r"thread_id_type \1 = TDP(\2);", None),
+    Sub(r"\(std::(min|max)\)\s*\(", lambda m: "VX_%s(" % m.group(1).upper(), None),
+]
+DESTROY_RULES = [H_NS] + H_TERM + H_COUNTERS + [H_BARE_COUNTER, HCall0(r"(?<![\w.>])cleanup_terminated", "tq_cleanup_terminated(self, {0})"),
+                                                Members(["parameters_"]), H_THIS]
+CTL_RULES = [H_NS] + H_TERM + H_MAP + H_COUNTERS + [H_BARE_COUNTER, HCall0(r"(?<![\w.>])recycle_thread", "tq_recycle_thread(self, {0})"),
+                                                   Members(["parameters_"])]
+CTL_LOOP1 = """
+__CPROVER_assigns(todelete, g_q0, G)
+__CPROVER_loop_invariant(CTL_INV(self))
+"""
+CTL_LOOP2 = """
+__CPROVER_assigns(todelete, delete_count, g_q0, G)
+__CPROVER_loop_invariant(CTL_INV(self) && delete_count >= 0)
+"""
+H_LOCK_GUARD = Guard(r"\bstd::lock_guard<mutex_type>\s+(\w+)\(\s*mtx_\s*\)\s*;", r"mon_acquire(&self->mtx_);", r"mon_release(&self->mtx_);", None)
+CT_RULES = [H_NS, H_LOCK_GUARD] + H_COUNTERS + [HCall0(r"(?<![\w.>])cleanup_terminated_locked", "tq_cleanup_terminated_locked(self, {0})"),
+                                               Sub(r"\bwhile\s*\(\s*true\s*\)", "while (1)", None)]
+CT_LOOP = """
+__CPROVER_assigns(g_q0, G)
+__CPROVER_loop_invariant(!LOCKED(self) && G.ctl_calls >= 0 && G.ctl_calls <= VX_BIG && (G.ctl_calls == 0 || !G.ctl_last) && TERMRANGE(self, 8) && TERMINV(self) && MAPRANGE(self, 8) && MAPINV(self) && VP_OK && !gv_mine)
+"""
+HOPS_UNITS += [
+    Unit("hops.tq.destroy_thread", H_DIR + "hops_destroy.c", defines=H_DEFS, enforce="destroy_thread",
+         lifts={"destroy_thread_body": Lift(H_TQ, r"void destroy_thread\(threads::detail::thread_data\* thrd\)", rules=DESTROY_RULES)},
+         funcs=[H_TQ + ": thread_queue::destroy_thread"], min_obligations=300,
+         doc="I+T: the terminated thread is appended to terminated_items_ exactly once, terminated_items_count_ +1 exactly once on the "
+             "same path, the object is not touched after the push (it may be recycled at once), nothing is erased or recycled by this "
+             "call itself; never a thread that is still queued (precondition: last reference died)"),
+    Unit("hops.tq.cleanup_terminated_locked", H_DIR + "hops_cleanup.c", defines=H_DEFS, enforce="cleanup_terminated_locked",
+         lifts={"ctl_body": Lift(H_TQ, r"bool cleanup_terminated_locked\(bool delete_all = false\)", rules=CTL_RULES,
+                                 loops={1: CTL_LOOP1, 2: CTL_LOOP2, "count": 2})},
+         funcs=[H_TQ + ": thread_queue::cleanup_terminated_locked"], min_obligations=600,
+         doc="I+T, both drain loops under loop contract: every thread popped from terminated_items_ is counted out of "
+             "terminated_items_count_ once (after the pop), erased from thread_map_ once, recycled once and counted out of "
+             "thread_map_count_ once (after the erase); the victim is popped at most once and then ends on a free list, out of the "
+             "map; a thread that is not popped is not touched; the authors' assertions (in the map; count >= 0) hold"),
+    Unit("hops.tq.cleanup_terminated", H_DIR + "hops_cleanup2.c", defines=H_DEFS, enforce="cleanup_terminated",
+         lifts={"ct_body": Lift(H_TQ, r"bool cleanup_terminated\(bool delete_all = false\)", rules=CT_RULES, loops={1: CT_LOOP, "count": 1})},
+         funcs=[H_TQ + ": thread_queue::cleanup_terminated"], min_obligations=400,
+         doc="T over the contract of cleanup_terminated_locked: every pass runs with mtx_ held, the lock is released "
+             "between passes and on every exit; `true` only when a pass or the first counter read reported nothing left"),
+]
+
+# ---------------------------------------------------------------------------------------------------------------
+# thread_queue::recycle_thread / create_thread_object -- once-ness (size classes: specs/C12/heap.c; rules as in specs/C12/spec.py)
+
+H_HEAPS = ["parameters_", "thread_heap_small_", "thread_heap_medium_", "thread_heap_large_", "thread_heap_huge_", "thread_heap_nostack_"]
+
+
+def _tid_method(args, env):
+    a = env["args"]                                  # get_thread_id_data(x)->name(args) -> thread_name(x[, args])
+    return "thread_%s(%s%s)" % (env["h2"], env["h1"], (", " + a) if a else "")
+
+
+HEAP_RULES = [
+    H_NS, H_STATE_ENUM,
+    Sub(r"\bthread_id_addref::(\w+)", r"thread_id_addref_\1", None),
+    HCall0(r"\bget_thread_id_data\(([^()]*)\)->(\w+)", _tid_method),
+    Sub(r"\b(thread_heap_\w+_)\.push_back\(", r"heap_push_back(&\1, ", None),                  # std::vector::push_back
+    Sub(r"\b(\w+)->(empty|back|pop_back)\(\)", r"heap_\2(\1)", None),                            # std::vector through the heap pointer
+    Sub(r"\bthread_heap_type\s*\*", "struct heap*", None),
+    Sub(r"(?<!struct )\bthread_data\s*\*", "struct thread_data*", None),
+    Sub(r"\bthread_data_(stackless|stackful)::create\(", r"create_\1(", None),
+    Call(r"\bthread_id_ref_type(?=\s*\()", "id_ref_make({args})", None),
+    Sub(r"\bdata\.", "data->", None),
+    Call(r"\bdata->scheduler_base->get_stack_size", "scheduler_get_stack_size(data, {args})", None),
+    Sub(r"\blk\.owns_lock\(\)", "OWNS(lk)", None),
+    Guard(r"(?:pika::)?(?:detail::)?unlock_guard\s*(?:<[^;()]*>)?\s*\w+\s*\(\s*(\w+)\s*\)\s*;", r"ulock_unlock(\1);", r"ulock_lock(\1);", None),
+    H_THIS,
+]
+HEAP_LIFTS = {
+    "recycle_thread_body": Lift(H_TQ, r"void recycle_thread\(threads::detail::thread_id_type thrd\)", rules=HEAP_RULES + [Members(H_HEAPS, optional=H_HEAPS)]),
+    "create_thread_object_body": Lift(H_TQ, r"void create_thread_object\(\s*threads::detail::thread_id_ref_type& thrd,", rules=HEAP_RULES + [
+        Sub(r"(?<![\w.>&*])thrd\b", "(*thrd)", None), Members(H_HEAPS, optional=H_HEAPS)]),
+}
+HOPS_UNITS += [
+    Unit("hops.heap.recycle_thread", H_DIR + "hops_heap_recycle.c", defines=H_DEFS, enforce="recycle_thread",
+         lifts={"recycle_thread_body": HEAP_LIFTS["recycle_thread_body"]},
+         funcs=[H_TQ + ": thread_queue::recycle_thread"], min_obligations=400,
+         doc="T: the object is pushed onto exactly one free list exactly once; the victim object is never on a free list twice and "
+             "only after it left every queue (all configurations of the five sizes; which list: C12 heap.*)"),
+    Unit("hops.heap.create_thread_object", H_DIR + "hops_heap_create.c", defines=H_DEFS, enforce="create_thread_object",
+         lifts={"create_thread_object_body": HEAP_LIFTS["create_thread_object_body"]},
+         funcs=[H_TQ + ": thread_queue::create_thread_object"], min_obligations=700, solver=["--sat-solver", "cadical"],
+         doc="T: exactly one object is handed out -- taken off a free list by the single pop_back after the back() that chose it, "
+             "and rebound, or newly created; the victim object is handed out only by the pop that removed "
+             "it (then it is on no free list); lock held again at exit; the object starts in the requested state "
+             "(pending_do_not_schedule / pending_boost as pending)"),
+]
+
+# ---------------------------------------------------------------------------------------------------------------
+# local_priority_queue_scheduler wrappers (T over the thread_queue contracts)
+
+
+class HMethod(Rule):
+    """member call `RECV.name(args)` / `RECV->name(args)` -> template(name, recv_lvalue, args).  From specs/C19 / C10."""
+
+    def __init__(self, names, template, n=None):
+        self.names, self.template, self.n = names, template, n
+
+    @staticmethod
+    def _recv_start(text, dot):
+        i = dot
+        while True:
+            if i >= 1 and text[i - 1] in ")]":
+                close = text[i - 1]
+                open_ = "(" if close == ")" else "["
+                depth, q = 0, i - 1
+                while q >= 0:
+                    if text[q] == close:
+                        depth += 1
+                    elif text[q] == open_:
+                        depth -= 1
+                        if depth == 0:
+                            break
+                    q -= 1
+                if q < 0:
+                    raise LiftError("HMethod: unbalanced receiver")
+                i = q
+                continue
+            mm = re.search(r"\w+$", text[:i])
+            if mm:
+                i = mm.start()
+                if text[i - 2: i] in ("::", "->"):
+                    i -= 2
+                    continue
+                if text[i - 1: i] == ".":
+                    i -= 1
+                    continue
+            break
+        return i
+
+    def apply(self, text):
+        k, scan = 0, 0
+        rx = re.compile(r"(\.|->)(%s)\s*\(" % "|".join(self.names))
+        while True:
+            m = rx.search(text, scan)
+            if not m:
+                break
+            rs = self._recv_start(text, m.start())
+            recv = text[rs: m.start()].strip()
+            if not recv:
+                raise LiftError("HMethod(%s): empty receiver" % m.group(2))
+            recv = "(%s)" % recv if m.group(1) == "->" else "&(%s)" % recv
+            op = m.end() - 1
+            cl = match_close(text, op)
+            rep = self.template(m.group(2), recv, [a for a in split_args(text[op + 1: cl]) if a])
+            text = text[:rs] + rep + text[cl + 1:]
+            scan = rs + len(rep)
+            k += 1
+        self.check(k, "HMethod(%s)" % "|".join(self.names))
+        return text
+
+
+H_PRIO_ENUM = Sub(r"(?:(?:pika::)?execution::)?thread_priority::(\w+)", r"thread_priority_\1", None)
+H_HINT_ENUM = Sub(r"(?:(?:pika::)?execution::)?thread_schedule_hint_mode::(\w+)", r"hint_mode_\1", None)
+H_LPQ_MEMBERS = Members(["num_queues_", "num_high_priority_queues_"], optional=["num_queues_", "num_high_priority_queues_"])
+LPQ_PLACE_RULES = [
+    Sub(r"(?:pika::threads::detail::)?(increment|decrement)_global_activity_count\(\)", r"\1_global_activity_count()", None),
+    Sub(r"std::size_t\(\s*(-?\w+)\s*\)", r"((size_t) \1)", None), H_PRIO_ENUM, H_HINT_ENUM,
+    Sub(r"\bdata\.", "data->", None),
+    Sub(r"\bcurr_queue_\s*\+\+", "atomic_fetch_inc(&self->curr_queue_)", None),
+    Sub(r"std::unique_lock<pu_mutex_type>\s+(\w+)\s*;", r"int \1 = 0;", None),
+    Call(r"\bselect_active_pu", lambda a, env: "select_active_pu(self, %s, %s)" % (a[1], a[2] if len(a) > 2 else "false"), None),
+    # which container receives which call with which index is the code's; the rules only bind container -> stub
+    Sub(r"\bhigh_priority_queues_\[([^\]]+)\]\.data_->(create_thread|schedule_thread)\(", r"hp_\2(self, \1, ", None),
+    Sub(r"\bqueues_\[([^\]]+)\]\.data_->(create_thread|schedule_thread)\(", r"np_\2(self, \1, ", None),
+    Sub(r"\blow_priority_queue_\.(create_thread|schedule_thread)\(", r"lp_\1(self, ", None),
+    Sub(r"\bauto\s*\*", "void *", None),
+    Sub(r"\b(\w+)->get_scheduler_base\(\)", r"td_get_scheduler_base(\1)", None),
+    Sub(r"\b(\w+)->get_queue<thread_queue_type>\(\)\.destroy_thread\(([^()]*)\)", r"own_queue_destroy_thread(self, \1, \2)", None),
+    H_LPQ_MEMBERS, H_THIS,
+]
+LPQ_POLL_RULES = [
+    Sub(r"\bthread_queue_type\s*\*", "struct qd *", None),
+    Sub(r"\bhigh_priority_queues_\[([^\]]+)\]\.data_", r"hp_queue(self, \1)", None),
+    Sub(r"\bqueues_\[([^\]]+)\]\.data_", r"np_queue(self, \1)", None),
+    Sub(r"\blow_priority_queue_(?=\.)", "L.lp", None),
+    HMethod(["get_next_thread", "increment_num_pending_accesses", "increment_num_pending_misses", "increment_num_stolen_from_pending",
+             "increment_num_stolen_to_pending", "get_staged_queue_length"], lambda name, recv, args: "tq_%s(%s)" % (name, ", ".join([recv] + args))),
+    Sub(r"for\s*\(\s*std::size_t\s+(\w+)\s*:\s*victim_threads_\[(\w+)\]\.data_\s*\)\s*\{",
+        r"for (size_t vx_it = 0; vx_it != victims_size(self, \2); ++vx_it) { size_t \1 = victim_at(self, \2, vx_it);", None),
+    H_LPQ_MEMBERS,
+]
+LPQ_STEAL_LOOP = """
+__CPROVER_assigns(vx_it, L, G, *thrd)
+__CPROVER_loop_invariant(L.pops == 0 && L.v_pops == 0 && *thrd == NULL && L.stage <= 3 && L.polls_foreign >= 0 && L.polls_foreign <= 3 && (enable_stealing || L.polls_foreign == 0) && \
+  L.polls_own_np <= 1 && L.polls_own_hp <= 1 && L.polls_lp == 0 && L.calls == 0 && VP_OK && !gv_mine && LPQ_QDS_OK && LPQ_V_OK)
+"""
+H_LPQ_F = H_LPQ + ": local_priority_queue_scheduler::"
+HOPS_UNITS += [
+    Unit("hops.lpq.create_thread", H_DIR + "hops_lpq_create.c", defines=H_DEFS, enforce="create_thread",
+         lifts={"body": Lift(H_LPQ, r"void create_thread\(threads::detail::thread_init_data& data,", rules=LPQ_PLACE_RULES)},
+         funcs=[H_LPQ_F + "create_thread"], min_obligations=150,
+         doc="T: exactly one thread_queue::create_thread is called, with the caller's request, id and error_code passed through "
+             "(index in bounds; which queue: C10 lpq.create_thread); activity count +1 once"),
+    Unit("hops.lpq.schedule_thread", H_DIR + "hops_lpq_sched.c", defines=H_DEFS, enforce="schedule_thread",
+         lifts={"body": Lift(H_LPQ, r"void schedule_thread\(threads::detail::thread_id_ref_type thrd,", rules=LPQ_PLACE_RULES)},
+         funcs=[H_LPQ_F + "schedule_thread"], min_obligations=120,
+         doc="T over the contract of thread_queue::schedule_thread: exactly one queue receives the call, with exactly the thread "
+             "passed in; the victim becomes pending exactly once"),
+    Unit("hops.lpq.schedule_thread_last", H_DIR + "hops_lpq_sched.c", defines=H_DEFS + ["U_LAST"], enforce="schedule_thread",
+         lifts={"body": Lift(H_LPQ, r"void schedule_thread_last\(threads::detail::thread_id_ref_type thrd,", rules=LPQ_PLACE_RULES)},
+         funcs=[H_LPQ_F + "schedule_thread_last"], min_obligations=120,
+         doc="T: same contract for schedule_thread_last (the thread goes to the other end of exactly one queue)"),
+    Unit("hops.lpq.destroy_thread", H_DIR + "hops_lpq_destroy.c", defines=H_DEFS, enforce="destroy_thread",
+         lifts={"body": Lift(H_LPQ, r"void destroy_thread\(threads::detail::thread_data\* thrd\) override", rules=LPQ_PLACE_RULES)},
+         funcs=[H_LPQ_F + "destroy_thread"], min_obligations=60,
+         doc="T over the contract of thread_queue::destroy_thread: the thread is handed exactly once to its OWN queue; activity count "
+             "-1 once"),
+    Unit("hops.lpq.get_next_thread", H_DIR + "hops_lpq_next.c", defines=H_DEFS, enforce="get_next_thread",
+         lifts={"body": Lift(H_LPQ, r"bool get_next_thread\(std::size_t num_thread, bool running,", rules=LPQ_POLL_RULES,
+                             loops={1: LPQ_STEAL_LOOP, "count": 1})},
+         funcs=[H_LPQ_F + "get_next_thread"], min_obligations=250,
+         doc="T over the contract of thread_queue::get_next_thread: a thread is returned IFF exactly one pop succeeded, it is the "
+             "popped one, and the id is empty otherwise; every poll is made with an empty id (nothing held can be overwritten); "
+             "after a success nothing else is polled; order own high, own normal, stolen, "
+             "low; nothing is put back; the victim reaches the worker only through that single pop"),
+]
+
+# ---------------------------------------------------------------------------------------------------------------
+# lemma over the hop contracts
+HOPS_UNITS += [
+    Unit("hops.lemma.one_place", H_DIR + "hops_lemma.c", defines=H_DEFS, kind="lemma", min_obligations=800,
+         funcs=["(contract stubs of specs/C01/hops.h and hops_lpq.h = the hop contracts the hops.* units are proved against)"],
+         doc="lemma over the hop contracts: from any state with the victim in exactly one place, any single hop whose precondition "
+             "holds (staged push / pop, object creation, map insert, schedule_thread, get_next_thread pop, destroy, terminated pop, "
+             "erase + recycle, free-list push / pop) leaves it in exactly one place; no hop makes it vanish or duplicates it; it "
+             "comes into somebody's hands only by a pop that returned it; a pending thread leaves the queue only into the hands of "
+             "the worker whose single get_next_thread pop returned it"),
+]
+
 HOPS_META = {
-    "trusted_base": [],
-    "assumptions": [],
-    "not_decided": [],
+    "explanation":
+        "U5 (rest) hops.*: ONE symbolic victim task is followed through the containers of the default scheduler's thread_queue "
+        "(new_tasks_, thread_map_, work_items_ behind the contract of schedule_thread / get_next_thread, terminated_items_, the "
+        "five free lists) with one membership bit per container plus `in the hands of the call under verification`; every "
+        "container stub asserts its counter discipline AT the operation and re-checks `the victim is in exactly one place`. "
+        "hops.tq.* / hops.heap.*: I+T contracts of thread_queue::add_new (two queue objects), add_new_always, create_thread, "
+        "destroy_thread, cleanup_terminated_locked, cleanup_terminated, recycle_thread, create_thread_object; hops.lpq.*: T "
+        "contracts of the local_priority_queue_scheduler wrappers over those; hops.lemma.one_place: any single hop keeps the victim "
+        "in exactly one place and hands it to somebody only by a pop that returned it. These compose with the state-word units "
+        "(U2/U3/U4) only ON PAPER: `entered exactly once` = (single successful pop, here) + (single successful pending->active "
+        "CAS, U2-U4) + history induction over several words and containers (DESIGN 3.4), which is not machine checked.",
+    "trusted_base": [
+        "specs/C01/hops.h nt_interfere / term_interfere / hops_at_acquire: VX_ASSUME(ledger invariant && VP_OK) -- the other workers keep "
+        "new_tasks_count_ >= entries (+ their own in-flight operations), thread_map_count_ == entries whenever mtx_ is free, the "
+        "victim in exactly one place; they may take a victim that is not in this call's hands along any edge, but never stage a "
+        "victim again; while the caller holds mtx_ nobody pops terminated_items_ or touches thread_map_ / the free lists",
+        "specs/C01/hops.h containers: new_tasks_ / terminated_items_ (lock-free queues: push always succeeds, pop may fail spuriously and "
+        "returns an element that is in the queue), thread_map_ (std::unordered_set: insert fails iff present -- other ids may be "
+        "refused nondeterministically so that the defensive path stays reachable; erase returns 1 iff present; every OTHER id popped "
+        "from terminated_items_ is in the map), thread_heap_* (std::vector: back() / pop_back() talk about the same element) are "
+        "ghost counts + ONE victim membership bit; VX_ASSUME bounds: ghost counts and counters below 10^9 / 2*10^9",
+        "specs/C01/hops.h cto / tq_schedule_thread / tq_recycle_thread / tq_cleanup_terminated / tq_cleanup_terminated_locked / tq_add_new: "
+        "hand-written contract stubs that restate the contracts proved by hops.heap.create_thread_object, queue.schedule_thread, "
+        "hops.heap.recycle_thread, hops.tq.cleanup_terminated, hops.tq.cleanup_terminated_locked, hops.tq.add_new (not "
+        "--replace-call-with-contract: the contracts speak about ghost event counters); hops.lemma.one_place cross-checks the "
+        "victim parts of these stubs against each other",
+        "specs/C01/hops.h task_alloc / task_construct / task_destroy / task_dealloc (allocator + placement new + destructor as "
+        "exactly-once counters; allocation never fails), vx_throw / vx_throws_if (exception = flag + immediate return; error_code "
+        "written), vx_move_tid / tid_release (std::move empties a thread_id_ref_type local; a local that still holds the thread at "
+        "scope exit is an obligation unless an error was reported), get_self_stacksize_enum (VX_ASSUME: never `current`, its own "
+        "PIKA_ASSERT), thread_rebind / create_stackful / create_stackless / scheduler_get_stack_size (recording stubs), monitor.h "
+        "std::unique_lock / lock_guard / unlock_guard lowering",
+        "specs/C01/hops_lpq.h: select_active_pu (VX_ASSUME(result < num_queues_): C19 state.select_active_pu), atomic_fetch_inc (curr_queue_++ "
+        "after arbitrary interference), victim_at (VX_ASSUME: victim indices are other, existing workers: on_start_thread), "
+        "q_create_thread / q_schedule_thread / own_queue_destroy_thread / tq_get_next_thread3: T stubs restating the contracts of "
+        "hops.tq.create_thread, queue.schedule_thread, hops.tq.destroy_thread, queue.get_next_thread",
+        "hops_spec.py helper rules defined locally: MemberCall ([RECV->]member.method(args) with the receiver captured), TaskHandles / "
+        "task_handle / td_handle (a `task_description*` / `thread_data*` local that is assigned inside a loop is lowered to a small "
+        "integer handle: a pointer in a dfcc loop frame is havocked to an invalid pointer and blows the instance up), TidLocals "
+        "(RAII lowering of thread_id_ref_type locals), HCall0, HMethod, h_enum_defines (enumerator values read from /repo)",
+    ],
+    "assumptions": [
+        "A-LIFE (caller's duty): thread_queue::destroy_thread runs when the last reference to the thread died, i.e. the thread is in no "
+        "queue and in the map of its own queue (precondition of hops.tq.destroy_thread / hops.lpq.destroy_thread; reference counting "
+        "itself is not modelled: ids are plain pointers)",
+        "every staged task description has initial_state == pending (established by hops.tq.create_thread: anything else is refused with "
+        "bad_parameter; assumed by the new_tasks_.pop stub, used for PIKA_ASSERT(schedule_now) in add_new)",
+        "thread_queue_init_parameters used in arithmetic are in [0, 10^9] (min/max_add_new_count_, max_thread_count_; "
+        "min_delete_count_ >= 0): they come unchecked from the configuration; a negative min_delete_count_ makes the bounded "
+        "clean-up loop unbounded",
+        "fewer than 10^9 conversions / pops / recycles per call and fewer than 10^9 entries per container (ghost arithmetic without "
+        "overflow); add_new is entered with add_count >= -1 (its callers: hops.tq.add_new_always)",
+        "PIKA_ASSERT(id != nullptr) in create_thread (a thread that is not scheduled must be returned) and "
+        "PIKA_ASSERT(thrd->get_scheduler_base() == this) / &thrd->get_queue() == this in destroy_thread are the callers' duty "
+        "(preconditions)",
+        "loop contracts are keyed by local names of the lifted text (add_count, added, task, todelete, delete_count, thrd): renaming "
+        "one of these is an extraction failure (exit 2), never a false alarm",
+        "hops.heap.create_thread_object uses CaDiCaL (MiniSat does not terminate on this instance; same observation as C12 heap.*)",
+    ],
+    "not_decided": [
+        "composition of the hops with each other and with the state word (history induction, paper): in particular that the waker / "
+        "runner that calls schedule_thread really holds the thread (U2-U4) and that reference counting keeps a queued thread alive",
+        "counter disciplines observed but NOT required: terminated_items_count_ is incremented AFTER the push (destroy_thread), so "
+        "cleanup_terminated_locked may report 'nothing left' while a just-terminated thread is already in terminated_items_ -- only "
+        "delays recycling; either order is accepted. create_thread (staged) increments new_tasks_count_ BEFORE it allocates and "
+        "constructs the description: if that allocation throws, the counter stays incremented for ever (allocation failure is not "
+        "modelled). Initial state pending_boost with run_now creates a pending thread that is NOT queued (treated like "
+        "pending_do_not_schedule; the staged road refuses it)",
+        "which end of a container is used (other_end / steal flags), how many tasks are converted or recycled per pass, when "
+        "destroy_thread triggers a clean-up: scheduling policy",
+        "move_work_items_from / move_task_items_from, wait_or_add_new, abort_all_suspended_threads' queueing (other.c covers its state "
+        "step), on_start_thread's pre-allocation, ~thread_queue; the other scheduling policies and queue_holder_thread",
+    ],
 }
